@@ -19,6 +19,11 @@ ASSUMPTIONS = ["the property is stated for column ranges 0 <= a <= b <= width+2 
                "zero-width characters occupy no column: the oracle requires them never to be invented or reordered and "
                "to keep their formatting, not where exactly a slice edge keeps or drops them"]
 
+LEVEL_NOTE = ("theorems are for EVERY wcwidth function with values 0/1/2 on the string (the library's own guard); the slice "
+              "theorem is the per-character column-interval relation SliceRel plus the width corollary (the flattened column "
+              "view of DESIGN is the harness oracle, not a separate Lean theorem). Trusted: Lean kernel + "
+              "propext/Classical.choice/Quot.sound, the hand-written model, the wire codec; cwcwidth is a parameter whose "
+              "values for the code points used are read live per run")
 
 # ------------------------------------------------------------------------------------------------ cases
 def mk_cases(ctx):
